@@ -70,7 +70,7 @@ CHECKS = {
     ),
     'C03': dict(
         props=['C03'], opts='props=2',
-        quick=[mc(2, SMALL, DEL, DEL + GC + ['add_vertex', 'add_n_vertices', 'add_edge', 'add_face_v', 'clear', 'enable_deferred'], BUSets='BUTwo'),
+        quick=[mc(2, SMALL, DEL, DEL + GC + ['add_vertex', 'add_n_vertices', 'add_edge', 'add_face_v', 'add_cell_closed', 'clear', 'enable_deferred'], BUSets='BUTwo'),
                mc(1, MAINSEEDS + EXTRA, [], SWAP + DEL, Modes='ModesDefault', BUSets='BUTwo'),
                mc(2, [5, 6], DEL, SWAP, Modes='ModesDeferred', BUSets='BUTwo')],
         thorough=[mc(3, [2, 5, 6], DEL + GC, DEL + GC + ['add_vertex', 'add_edge', 'add_face_v', 'clear', 'enable_deferred'], BUSets='BUTwo'),
